@@ -247,7 +247,35 @@ class StubsLib(StubsBase):
         raise PyExc("AttributeError", f"Quantity has no attribute {name}")
 
     # ================================================================== Time
+    def _init_twofloat(self):
+        """astropy.time.utils.two_sum / two_product: error-free transformations (Shewchuk), assumed:
+        s = RN(a+b), s + e = a + b exactly;  p = RN(a*b), p + e = a*b exactly."""
+        def two_sum(c, a, b):
+            c.note("assumed:two_sum(a,b)=(RN(a+b), exact error)")
+            ex = V.add(a, b)
+            s_ = self.mu_round(c, V.R(V.Z(ex)) if is_sym(ex) else ex) if getattr(c, "mu", False) else ex
+            if not getattr(c, "mu", False):
+                return (s_, 0)
+            e = c.fresh("ts_err")
+            c.assume(V.Z(s_) + e == V.R(V.Z(ex)), why="two_sum exactness (assumed contract)")
+            return (s_, e)
+
+        def two_product(c, a, b):
+            c.note("assumed:two_product(a,b)=(RN(a*b), exact error)")
+            ex = V.mul(a, b)
+            if not getattr(c, "mu", False):
+                return (ex, 0)
+            p_ = self.mu_round(c, V.R(V.Z(ex)) if is_sym(ex) else ex)
+            e = c.fresh("tp_err")
+            c.assume(V.Z(p_) + e == V.R(V.Z(ex)), why="two_product exactness (assumed contract)")
+            return (p_, e)
+        ns = NS("astropy.time.utils", {"two_sum": Stub(two_sum, "two_sum"), "two_product": Stub(two_product, "two_product")})
+        self.ext["astropy.time.utils"] = ns
+        self.ext["astropy.time.utils.two_sum"] = ns.attrs["two_sum"]
+        self.ext["astropy.time.utils.two_product"] = ns.attrs["two_product"]
+
     def _init_time(self):
+        self._init_twofloat()
         tt = ExtType("Time", lambda v: isinstance(v, STime))
         tt.ctor = self.time_ctor
         tt.attrs = {"isclose": Stub(self.time_isclose, "Time.isclose")}
